@@ -85,7 +85,17 @@ theorem retry_weight_decreases (o o' : RetryOptions) (failed : Bool) (h : nextTr
     has suspended (yielded, or slept for a retry delay); otherwise it records a class-I disagreement. -/
 theorem idle_continue_requires_suspension (c : SCfg) (s : SState) (h : s.idleSuspended = false) :
     (stepL c s .idleContinue).dis.any (fun d => d.cls == .I) = true := by
-  simp [stepL, h, SState.note, List.any_append]
+  simp only [stepL, inPhase_idleSuspended, h, Bool.false_eq_true, if_false]
+  split <;> simp [SState.note, List.any_append]
+
+/-- …and only after the stream has really returned Pending since the idle branch was entered: a wait that
+    blocks inside `execute` (the parser side is never polled meanwhile) is a class-I disagreement. -/
+theorem idle_continue_requires_pending (c : SCfg) (s : SState) (h : s.polledIdle = false) :
+    (stepL c s .idleContinue).dis.any (fun d => d.cls == .I) = true := by
+  have hp : ∀ (x : SState) ok what, (x.inPhase ok what).polledIdle = x.polledIdle := by
+    intro x ok what; unfold SState.inPhase; split <;> rfl
+  simp only [stepL]
+  split <;> simp [hp, h, SState.note, List.any_append]
 
 theorem idle_then_not_suspended (c : SCfg) (s : SState) (fin sleep : Bool) :
     (stepL c s (.idle fin sleep)).idleSuspended = false := by
@@ -111,10 +121,18 @@ def spinLog : List Label :=
 theorem prefix_spin_rejected : (accept spinCfg spinLog).dis.any (fun d => d.cls == .I) = true := by
   decide +kernel
 
-/-- with the yield in place the same situation is accepted -/
+/-- with the yield in place (the stream returns Pending, the harness polls again, the yield completes)
+    the same situation is accepted -/
 theorem yield_loop_accepted :
     (accept spinCfg [.pPend, .hookTake, .tx .started, .get1 1 (some 64) 0 0, .get2 2 (.cont (some 64)) [] false 0,
-      .idle false false, .idleYield, .idleContinue, .get1 3 (some 64) 0 0]).dis.isEmpty = true := by
+      .idle false false, .idleYield, .poll, .idleContinue, .get1 3 (some 64) 0 0]).dis.isEmpty = true := by
+  decide +kernel
+
+/-- a wait that completes without ever suspending `execute` (a blocking sleep / a yield that does not
+    yield) is rejected: the parser side would be starved for the whole wait -/
+theorem blocking_wait_rejected :
+    (accept spinCfg [.pPend, .hookTake, .tx .started, .get1 1 (some 64) 0 0, .get2 2 (.cont (some 64)) [] false 0,
+      .idle false false, .idleYield, .idleContinue, .get1 3 (some 64) 0 0]).dis.any (fun d => d.cls == .I) = true := by
   decide +kernel
 
 /-! ## Over whole runs of the scheduler LTS -/
